@@ -522,7 +522,10 @@ def ev(node, env, reading):
             raise Undef('non-integer index')
         if ii < 0 or ii >= len(a[1]):
             raise Undef('index out of bounds')
-        return a[1][ii]
+        el = a[1][ii]
+        if isinstance(el, (tuple, list)) and not (el and el[0] in ('array', 'set', 'range') and len(el) > 1 and isinstance(el[1], (tuple, list))):
+            return ('array', tuple(el))  # an array of arrays
+        return el
     if cls == 'HplSet':
         return ('set', tuple(ev(v, env, reading) for v in node.values))
     if cls == 'HplRange':
